@@ -34,7 +34,8 @@ ASSUMPTIONS = ["with incorrect validation data and previously unreferenced conte
 
 SPEC = {"A": {"cseed": 191, "size": 700}, "B": {"cseed": 192, "size": 8200}, "C": {"cseed": 193, "size": 4097}}
 VALIDATIONS = ["absent", "ok:sha256", "ok:md5", "ok:sha3_256", "ok:blake2b", "upper:sha256", "upper:sha3_256",
-               "mixed:sha224", "wrongsum:sha256", "wrongsum:sha224", "wrongsize", "bothwrong"]
+               "mixed:sha224", "wrongsum:sha256", "wrongsum:sha224", "wrongsize", "bothwrong", "bothwrong:sha224",
+               "bothwrong:blake2s"]
 
 
 def shards(tier, seed):
@@ -69,6 +70,9 @@ def validation_args(v, data):
         return hashlib.sha256(data).hexdigest(), "sha256", len(data) + 3, False
     if v == "bothwrong":
         return wrong_checksum(hashlib.md5(data).hexdigest(), "wrong"), "md5", len(data) + 1, False
+    if v.startswith("bothwrong:"):
+        a = v.split(":")[1]
+        return wrong_checksum(hashlib.new(a, data).hexdigest(), "wrong"), a, len(data) + 1, False
     mode, algo = v.split(":")
     true = hashlib.new(algo, data).hexdigest()
     if mode == "ok":
